@@ -180,3 +180,133 @@ def gen_hitl_ret(rnd):
     ]
     replies = [{"delay": rnd.choice([0, 0.5, 1, 3]), "type": "Answer", "pay": {"key": "{v}"}}]
     return {"family": "hitl_ret", "steps": steps, "timeout": None, "responders": [{"on": "Ask", "replies": replies}], "externals": [], "meta": {"n": n}}
+
+
+# ---------------------------------------------------------------- retry family (C05 / C06)
+def _gen_stop(rnd, depth=2):
+    if depth <= 0 or rnd.random() < 0.5:
+        k = rnd.choice(["attempt", "attempt", "delay", "never"])
+        if k == "attempt":
+            return {"k": k, "n": rnd.choice([0, 1, 1, 2, 3, 4, 6])}
+        if k == "delay":
+            return {"k": k, "d": rnd.choice([0.37, 1.37, 2.63, 4.41, 7.77])}
+        return {"k": k}
+    k = rnd.choice(["any", "all", "or", "and"])
+    return {"k": k, "parts": [_gen_stop(rnd, depth - 1) for _ in range(2)]}
+
+
+def _stop_bounded(ast):
+    """does the stop AST guarantee termination of an always-failing step (given positive latencies)?"""
+    k = ast["k"]
+    if k == "attempt":
+        return True
+    if k == "delay":
+        return True
+    if k == "never":
+        return False
+    vals = [_stop_bounded(p) for p in ast["parts"]]
+    return any(vals) if k in ("any", "or") else all(vals)
+
+
+def _gen_retry_cond(rnd, depth=2):
+    if depth <= 0 or rnd.random() < 0.5:
+        k = rnd.choice(["type", "not_type", "always", "never", "match", "always"])
+        if k in ("type", "not_type"):
+            return {"k": k, "types": rnd.sample(["E1", "E2", "E3", "ValueError"], rnd.randint(1, 2))}
+        if k == "match":
+            return {"k": k, "match": rnd.choice([r"\|0$", r"\|[01]$", r"work", r"\|2$"])}
+        return {"k": k}
+    k = rnd.choice(["any", "all", "or", "and"])
+    return {"k": k, "parts": [_gen_retry_cond(rnd, depth - 1) for _ in range(2)]}
+
+
+def gen_retry(rnd, *, waits="fixed"):
+    """One failing step with a composed retry policy; optional catch_error handler to observe StepFailedEvent."""
+    n_fail = rnd.choice([-1, -1, 1, 2, 3, 5])  # -1: always fails
+    stop = _gen_stop(rnd)
+    if n_fail < 0 and not _stop_bounded(stop):
+        stop = {"k": "any", "parts": [stop, {"k": "attempt", "n": rnd.randint(2, 6)}]}
+    retry = _gen_retry_cond(rnd) if rnd.random() < 0.6 else None
+    if waits == "fixed":
+        wait = {"k": "fixed", "w": rnd.choice([0, 0, 0.25, 1, 2])}
+    else:
+        wait = _gen_wait_det(rnd)
+    excs = [rnd.choice(["E1", "E2", "E3", "ValueError"]) for _ in range(8)]
+    lats = [rnd.choice([0.125, 0.5, 1, 1, 2]) for _ in range(8)]
+    pol = {"retry": retry, "wait": wait, "stop": stop}
+    if rnd.random() < 0.1 and waits == "fixed":
+        pol = {"legacy": "constant", "n": rnd.randint(1, 4), "delay": rnd.choice([0, 0.5, 1])}
+    steps = [
+        {"name": "work", "in": ["Go"], "nw": 1, "retry": pol,
+         "acts": [{"k": "sleep", "d": lats}, {"k": "fail", "n": n_fail, "exc": excs}, {"k": "ret", "type": "StopEvent", "result": "v"}]},
+    ]
+    if rnd.random() < 0.4:
+        steps.append({"name": "on_fail", "handler": {"for": None, "max": 1}, "in": [],
+                      "acts": [{"k": "ret", "type": "StopEvent", "result": "handled"}]})
+    return {"family": "retry", "steps": steps, "timeout": None, "externals": [], "meta": {"n_fail": n_fail, "excs": excs, "lats": lats, "policy": pol}}
+
+
+def _gen_wait_det(rnd, depth=1):
+    """deterministic wait strategies (C06 exactness) incl. chain / combine"""
+    if depth <= 0 or rnd.random() < 0.5:
+        k = rnd.choice(["fixed", "exp", "inc", "exp"])
+        if k == "fixed":
+            return {"k": k, "w": rnd.choice([0.25, 0.5, 1, 2, 3])}
+        if k == "exp":
+            return {"k": k, "mult": rnd.choice([0.25, 0.5, 1, 2]), "base": rnd.choice([0.5, 1.5, 2, 3]), "max": rnd.choice([5, 8, 60]), "min": rnd.choice([0, 0, 0.125])}
+        return {"k": k, "start": rnd.choice([0.25, 0.5, 1]), "inc": rnd.choice([0.25, 0.5, 1]), "max": rnd.choice([2, 4, 100])}
+    k = rnd.choice(["chain", "chain", "combine", "plus"])
+    n = rnd.randint(2, 3)
+    return {"k": k, "parts": [_gen_wait_det(rnd, depth - 1) for _ in range(n)]}
+
+
+def gen_retry_waits(rnd):
+    spec = gen_retry(rnd, waits="det")
+    spec["family"] = "retry_waits"
+    return spec
+
+
+# ---------------------------------------------------------------- catch_error family (C08)
+def gen_catch(rnd):
+    n = rnd.randint(1, 4)
+    att1 = rnd.randint(1, 3)
+    att2 = rnd.randint(1, 2)
+    items = []
+    for _ in range(n):
+        items.append({"lat": [rnd.choice([0, 0.5, 1])], "fails": rnd.choice([0, 0, att1, att1, 1 if att1 > 1 else att1]), "fails2": rnd.choice([0, 0, att2])})
+    layout = rnd.choice(["scoped", "scoped_both", "wildcard", "scoped+wildcard", "none", "none"])
+    steps = [
+        {"name": "start", "in": ["Go"], "nw": 1, "acts": [{"k": "send", "type": "EvA", "items": items}, {"k": "ret", "type": None}], "declare": ["EvA"]},
+        {"name": "w1", "in": ["EvA"], "nw": rnd.randint(1, 3), "retry": {"wait": {"k": "fixed", "w": rnd.choice([0, 0.5])}, "stop": {"k": "attempt", "n": att1}},
+         "acts": [{"k": "sleep", "d": {"from": "lat"}}, {"k": "fail", "n": {"from": "fails"}, "exc": "E1"}, {"k": "ret", "type": "EvB", "pay": {"fails": 0}}]},
+        {"name": "w2", "in": ["EvB"], "nw": rnd.randint(1, 2), "retry": {"wait": {"k": "fixed", "w": 0}, "stop": {"k": "attempt", "n": att2}},
+         "acts": [{"k": "sleep", "d": rnd.choice([0, 1])}, {"k": "fail", "n": {"from": "fails2"}, "exc": "E2"}, {"k": "ret", "type": "EvC"}]},
+        {"name": "join", "in": ["EvC"], "nw": 1, "acts": [{"k": "collect", "types": ["EvC"] * n}, {"k": "ret", "type": "StopEvent", "result": "collected"}]},
+    ]
+    # w1's EvB must carry fails2 of its input: use pay from event via 'copy'
+    steps[1]["acts"][2]["copy"] = ["fails2"]
+
+    def handler(name, for_, mx):
+        mode = rnd.choice(["again", "again", "stop", "raise", "skip"])
+        if mode == "again":
+            # re-enter the lineage: emit a fresh EvA that may fail again (fails decided by payload)
+            acts = [{"k": "ret", "type": "EvA", "pay": {"lat": [0], "fails": rnd.choice([0, att1]), "fails2": rnd.choice([0, att2])}}]
+        elif mode == "stop":
+            acts = [{"k": "ret", "type": "StopEvent", "result": "handled"}]
+        elif mode == "raise":
+            acts = [{"k": "fail", "n": -1, "exc": "E3"}]
+        else:
+            acts = [{"k": "ret", "type": "EvC"}]
+        return {"name": name, "handler": {"for": for_, "max": mx}, "in": [], "acts": acts, "meta_mode": mode}
+
+    if layout == "scoped":
+        steps.append(handler("h1", ["w1"], rnd.randint(1, 3)))
+    elif layout == "scoped_both":
+        steps.append(handler("h1", ["w1"], rnd.randint(1, 2)))
+        steps.append(handler("h2", ["w2"], rnd.randint(1, 2)))
+    elif layout == "wildcard":
+        steps.append(handler("hw", None, rnd.randint(1, 3)))
+    elif layout == "scoped+wildcard":
+        steps.append(handler("h1", [rnd.choice(["w1", "w2"])], rnd.randint(1, 2)))
+        steps.append(handler("hw", None, rnd.randint(1, 2)))
+    return {"family": "catch", "steps": steps, "timeout": None, "externals": [], "meta": {"layout": layout, "n": n}}
